@@ -15,6 +15,8 @@ struct StreamRef {
   std::vector<int64_t> boundaries;      // sorted global page-boundary positions (link starts and page granules)
   bool damaged = false;
   bool has_bs64 = false;
+  bool ambiguous_cut = false;           // a cut link whose audio sits on a single page: start offset and end trim cannot be told apart from page granules
+  std::vector<int64_t> goff;            // granule position at which each link's audio starts (0 unless cut / 64-sample rewrite)
   int link_of(int64_t pos) const {      // link containing sample pos (pos < total); for pos==total returns nlinks-1
     for (int i = 0; i < nlinks; i++) if (pos >= start[i] && pos < start[i + 1]) return i;
     return nlinks - 1;
